@@ -4,6 +4,8 @@ import json
 import re
 
 from analysis.facts import strip_generics
+from analysis import a7
+from rules import a7_common
 
 EXPLANATION = (
     "The schedule quantifier is discharged by type- and lock-structure arguments: (1) trait-solver "
@@ -18,10 +20,12 @@ EXPLANATION = (
     "shared mutable state and cache purity are C06.1-3 evaluated in configuration B; (5) configuration "
     "diff — the MIR of the two builds is identical function by function except for the functions that "
     "hold the guard type and the Blocker constructors, which is the argument that both builds give "
-    "identical answers."
+    "identical answers; (6) no poisoning — every panic-capable site (asserts, unwrap/expect, indexing, "
+    "time arithmetic, ...) in the cone of the functions that hold the MutexGuard is discharged by the "
+    "reviewed A7 table with a basis that holds for any engine state (same table as C10.3)."
 )
-NOT_DECIDED = ("Fairness / performance under contention. Lock poisoning needs a panic under the guard: the "
-               "panic-site audit of the query cones is reported under C10/C11 (parser-built engines).")
+NOT_DECIDED = ("Fairness / performance under contention; panics inside dependencies (regex, seahash) that "
+               "are not expressed as a panic-capable call in this crate's MIR.")
 
 
 def check(run):
@@ -31,8 +35,19 @@ def check(run):
         run.guard("C19.1.send-sync", cfg, lambda: rule_send_sync(run, F, A, cfg))
         run.guard("C19.2.unsafe-impl-vacuous", cfg, lambda: rule_unsafe(run, F, cfg))
         run.guard("C19.3.single-lock", cfg, lambda: rule_lock(run, F, cfg))
+        run.guard("C19.4.no-panic-under-lock", cfg, lambda: rule_poison(run, F, cfg))
     run.guard("C19.3.single-lock", "A", lambda: rule_lock(run, A, "A"))
     run.guard("C19.5.config-diff", "A/B", lambda: rule_diff(run, A, run.facts("B")))
+
+
+def rule_poison(run, F, cfg):
+    """a panic while the MutexGuard is live poisons the lock for every later query: audit every
+    panic-capable site in the cone of the functions that acquire it (the guard lives to their end)"""
+    holders = sorted(set(g.name.split("::{closure")[0]
+                         for g, b, t in F.callers_of(r"^blocker::Blocker::borrow_regex_manager$")))
+    run.floor("C19.4.no-panic-under-lock", f"functions holding the regex lock [{cfg}]", len(holders), 5)
+    a7.check_cone(run, "C19.4.no-panic-under-lock", F, cfg, holders, a7_common.rows(),
+                  a7_common.NO_PARSE_INVARIANT, floor=40, label="code running under the regex-manager lock")
 
 
 def rule_send_sync(run, F, A, cfg):
